@@ -42,10 +42,12 @@ type routerViolation struct {
 	Focus     string          `json:"focus"`
 	SchedSeed uint64          `json:"sched_seed"`
 	Outcomes  json.RawMessage `json:"outcomes,omitempty"`
+	raw       json.RawMessage
 }
 
 type batchOutput struct {
-	Violations []routerViolation `json:"violations"`
+	Violations []routerViolation `json:"-"`
+	Raw        []json.RawMessage `json:"violations"` // verbatim: replayed exactly as the batch wrote them
 	Stats      map[string]any    `json:"stats"`
 }
 
@@ -336,6 +338,14 @@ func (rs *routerSim) runBatch(seed uint64, tier string, projects []batchProject,
 	if err := json.Unmarshal(raw, &bo); err != nil {
 		harnessFail("batch output unreadable: %v", err)
 	}
+	for _, r := range bo.Raw {
+		var v routerViolation
+		if err := json.Unmarshal(r, &v); err != nil {
+			harnessFail("batch violation unreadable: %v", err)
+		}
+		v.raw = r
+		bo.Violations = append(bo.Violations, v)
+	}
 	return bo
 }
 
@@ -400,7 +410,7 @@ func cmdRouter(prop string, args []string) {
 			seenSig[v.Signature] = true
 			bp := byTag[v.Project]
 			// replay before report: the same group, same schedule seed, in a fresh process
-			vb, _ := json.Marshal(v)
+			vb := v.raw
 			static := map[string]bool{"registration-panic": true, "hidden-documented": true, "served-not-documented": true, "operation-id": true, "documented-not-annotated": true}
 			if !static[v.Class] {
 				rb := rs.runBatch(o.Seed, o.Tier, []batchProject{bp}, vb)
@@ -418,7 +428,7 @@ func cmdRouter(prop string, args []string) {
 			}
 			rep.Report(v.Signature, v.Class, v.Message, map[string]any{
 				"engine": "routersim", "tree_fingerprint": rs.s.Fingerprint, "verif_seed": o.Seed,
-				"batch_project": bp, "violation": v,
+				"batch_project": bp, "violation": v.raw,
 			})
 		}
 	}
